@@ -47,8 +47,8 @@ ASSUMPTIONS = [
     'creation namespace, and deleting through a copy does not remove a '
     'copy in an unrelated creation namespace)',
     'a dangling end (end point deleted after the association was created) '
-    'may or may not be reported, but Names and full results must agree on '
-    'existing end points and no operation may fail because of it']
+    'is not an object Associators can return, so AssociatorNames must not '
+    'return it either; no operation may fail because of it']
 
 ROLES = ['Ante', 'Dep', 'Third']
 
@@ -245,13 +245,15 @@ def execute(plan):
                 continue
             ankeys, afkeys = keyset(an[1], xns), keyset(af[1], xns)
             exp, dang = model_assoc(xkey, xns, role, rrole, aclass, rclass)
-            if ankeys - dang != afkeys - dang:
+            if ankeys != afkeys:
                 viol('names-differ-from-full/associators',
                      '%s: AssociatorNames %s != paths of Associators %s' %
                      (ctx, sorted(ankeys, key=repr), sorted(afkeys,
                                                             key=repr)))
                 return
-            got = ankeys - {xkey} - dang
+            if dang:
+                M.bump('query_over_dangling_end')
+            got = ankeys - {xkey}
             if got != exp:
                 viol('associators-disagree-with-instances',
                      '%s: returned %s; the association instances imply %s '
@@ -318,7 +320,7 @@ def execute(plan):
                     return
             # I4 symmetry (unfiltered)
             if not kw:
-                for ykey in sorted(ankeys - {xkey} - dang, key=repr)[:2]:
+                for ykey in sorted(ankeys - {xkey}, key=repr)[:2]:
                     if ykey not in RM.inst:
                         continue
                     if ykey[0] != xns.lower():
@@ -338,8 +340,7 @@ def execute(plan):
                 ikw = dict(kw)
                 it = call('IterAssociatorInstancePaths', InstanceName=x,
                           MaxObjectCount=qr.choice([1, 2, 100]), **ikw)
-                if it[0] != 'ok' or keyset(it[1], xns) - dang != \
-                        ankeys - dang:
+                if it[0] != 'ok' or keyset(it[1], xns) != ankeys:
                     viol('iter-differs-from-traditional',
                          '%s: IterAssociatorInstancePaths %s vs '
                          'AssociatorNames %s' %
